@@ -1,5 +1,390 @@
-use crate::mc::Eng;
+//! C04 — PIDControllerStream output equals the textbook discrete PID of its input history.
+use crate::env::*;
+use crate::mc::*;
+use crate::refmodels::*;
 use crate::Ctx;
-pub fn run(_ctx: &Ctx) -> Vec<Eng> {
-    vec![]
+use rrtk::streams::control::*;
+use rrtk::streams::converters::*;
+use rrtk::streams::math::*;
+use rrtk::*;
+use std::cell::RefCell;
+use std::rc::Rc;
+
+#[derive(Clone, Copy, Debug, PartialEq)]
+pub enum Ev {
+    P(i64, f32), // interval since the previous event in ns, sample value
+    N(i64),
+    Er(i64, u8),
+}
+fn ev_dt(e: &Ev) -> i64 {
+    match e {
+        Ev::P(d, _) | Ev::N(d) | Ev::Er(d, _) => *d,
+    }
+}
+fn show(h: &[Ev]) -> String {
+    h.iter()
+        .map(|e| match e {
+            Ev::P(d, v) => format!("P(+{}ns,{:?})", d, v),
+            Ev::N(_) => "N".to_string(),
+            Ev::Er(_, c) => format!("E{}", c),
+        })
+        .collect::<Vec<_>>()
+        .join(",")
+}
+
+#[derive(Clone, Copy)]
+pub struct Gains {
+    kp: f32,
+    ki: f32,
+    kd: f32,
+    sp: f32,
+}
+pub const GAINS: [Gains; 4] = [
+    Gains { kp: 1.0, ki: 0.0, kd: 0.0, sp: 0.0 },
+    Gains { kp: 0.0, ki: 1.0, kd: 0.0, sp: 5.0 },
+    Gains { kp: 0.0, ki: 0.0, kd: 1.0, sp: -3.0 },
+    Gains { kp: 2.0, ki: 0.5, kd: 0.25, sp: 5.0 },
+];
+
+/// Textbook PID: memory is (previous error, its time, running trapezoid integral).
+struct RefPid {
+    g: Gains,
+    prev: Option<(i64, Tr)>,
+    int: Tr,
+}
+impl RefPid {
+    fn new(g: Gains) -> Self {
+        RefPid { g, prev: None, int: Tr::exact(0.0) }
+    }
+    fn reset(&mut self) {
+        self.prev = None;
+        self.int = Tr::exact(0.0);
+    }
+    fn sample(&mut self, t: i64, v: f32) -> Tr {
+        let e = Tr::exact(self.g.sp).sub(Tr::exact(v));
+        let (i, d) = match self.prev {
+            None => (Tr::exact(0.0), Tr::exact(0.0)),
+            Some((tp, ep)) => {
+                let dt = secs(t - tp);
+                let d = e.sub(ep).div(dt);
+                let add = dt.mul(ep.add(e)).div(Tr::exact(2.0));
+                self.int = self.int.add(add);
+                (self.int, d)
+            }
+        };
+        self.prev = Some((t, e));
+        Tr::exact(self.g.kp).mul(e).add(Tr::exact(self.g.ki).mul(i)).add(Tr::exact(self.g.kd).mul(d))
+    }
+}
+
+/// The same controller assembled from the crate's primitive streams (after examples/pid.rs;
+/// every inner stream is updated on every round whatever the others returned).
+struct Composed {
+    int: Rc<RefCell<IntegralStream<dyn Getter<Quantity, E>, E>>>,
+    drv: Rc<RefCell<DerivativeStream<dyn Getter<Quantity, E>, E>>>,
+    floats: Vec<Rc<RefCell<QuantityToFloat<dyn Getter<Quantity, E>, E>>>>,
+    out: SumStream<f32, 3, E>,
+}
+impl Composed {
+    fn new(input: Reference<dyn Getter<Quantity, E>>, g: Gains) -> Self {
+        let tg = rc(TimeGetterFromGetter::new(input.clone()));
+        let cg = |v: f32, u: Unit| rc(ConstantGetter::new(rf(&tg), Quantity::new(v, u)));
+        let sp = cg(g.sp, MILLIMETER);
+        let kp = cg(g.kp, DIMENSIONLESS);
+        let ki = cg(g.ki, DIMENSIONLESS);
+        let kd = cg(g.kd, DIMENSIONLESS);
+        let error = rc(DifferenceStream::new(rf(&sp), input.clone()));
+        let err_dyn = || dyn_getter::<Quantity, _>(&error);
+        let int = rc(IntegralStream::new(err_dyn()));
+        let drv = rc(DerivativeStream::new(err_dyn()));
+        let int_z = rc(NoneToValue::new(rf(&int), rf(&tg), Quantity::new(0.0, MILLIMETER)));
+        let drv_z = rc(NoneToValue::new(rf(&drv), rf(&tg), Quantity::new(0.0, MILLIMETER)));
+        let kp_mul = rc(ProductStream::new([dyn_getter(&kp), err_dyn()]));
+        let ki_mul = rc(ProductStream::new([dyn_getter(&ki), dyn_getter(&int_z)]));
+        let kd_mul = rc(ProductStream::new([dyn_getter(&kd), dyn_getter(&drv_z)]));
+        let f = |r: Reference<dyn Getter<Quantity, E>>| rc(QuantityToFloat::new(r));
+        let floats = vec![f(dyn_getter(&kp_mul)), f(dyn_getter(&ki_mul)), f(dyn_getter(&kd_mul))];
+        let out = SumStream::new([dyn_getter(&floats[0]), dyn_getter(&floats[1]), dyn_getter(&floats[2])]);
+        Composed { int, drv, floats, out }
+    }
+    fn update(&mut self) {
+        let _ = self.int.borrow_mut().update();
+        let _ = self.drv.borrow_mut().update();
+        for f in &self.floats {
+            let _ = f.borrow_mut().update();
+        }
+    }
+}
+
+struct Real {
+    inp: Rc<RefCell<Scr<f32>>>,
+    pid: PIDControllerStream<Scr<f32>, E>,
+}
+fn mk_real(g: Gains, scale: f32) -> Real {
+    let inp = rc(Scr::<f32>::new(Ok(None)));
+    let pid = PIDControllerStream::new(rf(&inp), g.sp * scale, PIDKValues::new(g.kp, g.ki, g.kd));
+    Real { inp, pid }
+}
+
+/// Execute a history on the real controller; returns per step (update result, get obs).
+fn run_real(g: Gains, h: &[Ev], t0: i64, scale: f32) -> Vec<(u32, Obs)> {
+    let mut r = mk_real(g, scale);
+    let mut t = t0;
+    let mut out = Vec::with_capacity(h.len());
+    for e in h {
+        t += ev_dt(e);
+        r.inp.borrow_mut().next = match e {
+            Ev::P(_, v) => Ok(Some(Datum::new(Time(t), *v * scale))),
+            Ev::N(_) => Ok(None),
+            Ev::Er(_, c) => Err(Error::Other(*c)),
+        };
+        let u = r.pid.update();
+        out.push((obs_unit(&u), obs(&r.pid.get())));
+    }
+    out
+}
+
+fn run_composed(g: Gains, h: &[Ev], t0: i64) -> Vec<Obs> {
+    let inp = rc(Scr::<Quantity>::new(Ok(None)));
+    let mut c = Composed::new(dyn_getter(&inp), g);
+    let mut t = t0;
+    let mut out = Vec::new();
+    for e in h {
+        t += ev_dt(e);
+        inp.borrow_mut().next = match e {
+            Ev::P(_, v) => Ok(Some(Datum::new(Time(t), Quantity::new(*v, MILLIMETER)))),
+            Ev::N(_) => Ok(None),
+            Ev::Er(_, c) => Err(Error::Other(*c)),
+        };
+        c.update();
+        out.push(obs(&c.out.get()));
+    }
+    out
+}
+
+pub struct Opts {
+    pub meta: bool,
+    pub compose: bool,
+}
+
+pub fn check_history(gi: usize, h: &[Ev], e: &mut Eng, o: &Opts) -> u64 {
+    let g = GAINS[gi];
+    let t0 = 10 * S;
+    let n = h.len();
+    let mut applied = n as u64;
+    let main = match guard(|| run_real(g, h, t0, 1.0)) {
+        Ok(m) => m,
+        Err(m) => {
+            e.violation("pid:panic", n, || format!("gains#{} history [{}] panicked: {}", gi, show(h), m));
+            return applied;
+        }
+    };
+    e.outcome(h64(&(gi, &main)));
+    // textbook reference after every event
+    let mut r = RefPid::new(g);
+    let mut t = t0;
+    let mut refs: Vec<Option<Tr>> = Vec::with_capacity(n);
+    let mut nontrivial = false;
+    let (mut n_exact, mut n_tol) = (0i128, 0i128);
+    for (k, ev) in h.iter().enumerate() {
+        t += ev_dt(ev);
+        e.checks += 1;
+        match ev {
+            Ev::P(_, v) => {
+                if r.prev.is_some() && k >= 2 {
+                    nontrivial = true;
+                }
+                let exp = r.sample(t, *v);
+                if exp.robust {
+                    n_exact += 1;
+                } else {
+                    n_tol += 1;
+                }
+                refs.push(Some(exp));
+                let (u, got) = main[k];
+                let ok = u == 0 && got.is_some() && got.time == t && exp.agrees(got.f(0), 8.0);
+                if !ok {
+                    e.violation(if got.is_some() && got.time != t { "pid:time" } else { "pid:value" }, k + 1, || {
+                        format!(
+                            "gains#{} (kp={},ki={},kd={},setpoint={}) history [{}]: after event {} update()={} get()={} but the textbook PID gives {} at time {}",
+                            gi, g.kp, g.ki, g.kd, g.sp, show(&h[..=k]), k, u, got.show(), exp.show(), t
+                        )
+                    });
+                    break;
+                }
+            }
+            Ev::N(_) => {
+                r.reset();
+                refs.push(None);
+                if main[k].0 != 0 {
+                    e.violation("pid:update-result", k + 1, || format!("history [{}]: update() on an absent input returned error code {}", show(&h[..=k]), main[k].0 - 2));
+                }
+            }
+            Ev::Er(_, c) => {
+                r.reset();
+                refs.push(None);
+                if main[k].0 != 2 + *c as u32 {
+                    e.violation("pid:update-result", k + 1, || format!("history [{}]: update() did not return the input's error", show(&h[..=k])));
+                }
+            }
+        }
+    }
+    if nontrivial {
+        e.nontrivial += 1;
+    }
+    e.count("bit_exact_reference_checks", n_exact);
+    e.count("tolerance_reference_checks", n_tol);
+    if o.meta {
+        // shift invariance: bit-identical values, shifted times
+        for shift in [-1_000_000_000_000_000i64, 7, 100_000_000_000_000_000] {
+            if let Ok(sh) = guard(|| run_real(g, h, t0 + shift, 1.0)) {
+                applied += n as u64;
+                for k in 0..n {
+                    e.checks += 1;
+                    let (a, b) = (main[k], sh[k]);
+                    let same = a.0 == b.0 && a.1.tag == b.1.tag && a.1.bits == b.1.bits && (a.1.tag != 1 || a.1.time + shift == b.1.time);
+                    if !same {
+                        e.violation("pid:shift-variance", k + 1, || {
+                            format!("gains#{} history [{}]: with all timestamps shifted by {} event {} gives {} instead of {}", gi, show(&h[..=k]), shift, k, b.1.show(), a.1.show())
+                        });
+                        break;
+                    }
+                }
+            }
+        }
+        // power-of-two scaling of setpoint and samples scales the output exactly
+        for scale in [0.125f32, 16.0] {
+            if let Ok(sc) = guard(|| run_real(g, h, t0, scale)) {
+                applied += n as u64;
+                for k in 0..n {
+                    e.checks += 1;
+                    let (a, b) = (main[k], sc[k]);
+                    let same = a.0 == b.0 && a.1.tag == b.1.tag && (a.1.tag != 1 || (a.1.time == b.1.time && a.1.f(0) * scale == b.1.f(0)));
+                    if !same {
+                        e.violation("pid:scale-variance", k + 1, || {
+                            format!("gains#{} history [{}]: with setpoint and samples scaled by {} event {} gives {} instead of {} x {}", gi, show(&h[..=k]), scale, k, b.1.show(), a.1.show(), scale)
+                        });
+                        break;
+                    }
+                }
+            }
+        }
+    }
+    if o.compose {
+        match guard(|| run_composed(g, h, t0)) {
+            Err(m) => e.violation("pid:composition-panic", n, || format!("history [{}]: composed controller panicked: {}", show(h), m)),
+            Ok(c) => {
+                applied += n as u64;
+                let mut t = t0;
+                for k in 0..n {
+                    t += ev_dt(&h[k]);
+                    if let (Ev::P(..), Some(exp)) = (&h[k], refs.get(k).copied().flatten()) {
+                        e.checks += 1;
+                        let got = c[k];
+                        let real = main[k].1;
+                        // composed vs textbook, and composed vs real (within twice the bound when inexact)
+                        let ok = got.is_some() && got.time == t && exp.agrees(got.f(0), 8.0);
+                        if !ok {
+                            e.violation("pid:composition-differs", k + 1, || {
+                                format!(
+                                    "gains#{} history [{}]: at event {} the controller composed from difference/integral/derivative/product/sum streams gives {} but PIDControllerStream gives {} (textbook {})",
+                                    gi, show(&h[..=k]), k, got.show(), real.show(), exp.show()
+                                )
+                            });
+                            break;
+                        }
+                    }
+                }
+            }
+        }
+    }
+    applied
+}
+
+pub fn exact_syms() -> Vec<Ev> {
+    let mut v = Vec::new();
+    for dt in [S / 2, S, 2 * S] {
+        for x in [0.0f32, 1.0, -2.0] {
+            v.push(Ev::P(dt, x));
+        }
+    }
+    v.push(Ev::N(S));
+    v.push(Ev::Er(S, 1));
+    v.push(Ev::Er(S, 2));
+    v
+}
+pub fn broad_syms() -> Vec<Ev> {
+    let mut v = Vec::new();
+    for dt in [1_000i64, 1_000_000, 300_000_000, 3600 * S] {
+        for x in [0.1f32, -7.3, 1000.0] {
+            v.push(Ev::P(dt, x));
+        }
+    }
+    v.push(Ev::N(S));
+    v.push(Ev::Er(S, 1));
+    v
+}
+
+pub fn run(ctx: &Ctx) -> Vec<Eng> {
+    let budget = Budget::secs(if ctx.thorough { 2000 } else { 120 });
+    let depth = if ctx.thorough { 7 } else { 5 };
+    let syms = exact_syms();
+    let mut e1 = Eng::new(
+        "c04-seqs-exact",
+        "all histories of exactly `depth` events over {P(dt,v): dt in {0.5,1,2}s, v in {0,1,-2}} + {N,E1,E2} x 4 gain/setpoint sets; after every present sample get() must equal the textbook PID (bit-exact: every intermediate is dyadic) stamped with the input time, update() Ok / the input's error; metamorphic: timestamps shifted by -1e15, +7, +1e17 ns (bit-identical), setpoint and samples scaled by 2^-3 and 2^4 (exact scaling); differential: the controller composed from the crate's own primitive streams; non-trivial = a present sample with history behind it at depth >= 3",
+        &format!("depth {} => 12^{} histories x 4 gain sets", depth, depth),
+    );
+    for gi in 0..4 {
+        par_seqs(&mut e1, syms.len(), depth, budget, |seq, e| {
+            let h: Vec<Ev> = seq.iter().map(|&s| syms[s]).collect();
+            let a = check_history(gi, &h, e, &Opts { meta: true, compose: true });
+            e.sample(|| format!("gains#{} [{}]", gi, show(&h)));
+            a
+        });
+    }
+    let bdepth = if ctx.thorough { 6 } else { 4 };
+    let bs = broad_syms();
+    let mut e2 = Eng::new(
+        "c04-seqs-broad",
+        "same, over the broad alphabet {P(dt,v): dt in {1us,1ms,0.3s,1h}, v in {0.1,-7.3,1000}} + {N,E1}: f64 reference with a running forward-error bound (8x) where intermediates are not exactly representable; shift invariance stays bit-exact",
+        &format!("depth {} => 14^{} histories x 4 gain sets", bdepth, bdepth),
+    );
+    for gi in 0..4 {
+        par_seqs(&mut e2, bs.len(), bdepth, budget, |seq, e| {
+            let h: Vec<Ev> = seq.iter().map(|&s| bs[s]).collect();
+            let a = check_history(gi, &h, e, &Opts { meta: true, compose: true });
+            e.sample(|| format!("gains#{} [{}]", gi, show(&h)));
+            a
+        });
+    }
+    let (hz, k) = if ctx.thorough { (64, 3) } else { (24, 2) };
+    let mut e3 = Eng::new(
+        "c04-deviations",
+        "all histories of exactly H events that differ from the default stream P(1 s, cycle of {0,1,-2,3}) in at most k positions, a deviation being one of {N, E1, P(0.5 s), P(2 s), P(1 us), P(1 h)}; full gain set; textbook reference + shift invariance + composition",
+        &format!("H={} k={}", hz, k),
+    );
+    let cases = deviation_cases(hz, 6, k);
+    let cyc = [0.0f32, 1.0, -2.0, 3.0];
+    par_cases(&mut e3, &cases, budget, |c, e| {
+        let mut h: Vec<Ev> = (0..hz).map(|i| Ev::P(S, cyc[i % 4])).collect();
+        for &(p, a) in c {
+            let v = cyc[(p as usize + 1) % 4];
+            h[p as usize] = match a {
+                0 => Ev::N(S),
+                1 => Ev::Er(S, 1),
+                2 => Ev::P(S / 2, v),
+                3 => Ev::P(2 * S, v),
+                4 => Ev::P(1000, v),
+                _ => Ev::P(3600 * S, v),
+            };
+        }
+        e.executions += 1;
+        e.states += 1;
+        e.max_depth = e.max_depth.max(hz as u64);
+        e.transitions += check_history(3, &h, e, &Opts { meta: c.len() < 3, compose: true });
+        if c.len() == k {
+            e.sample(|| format!("[{}]", show(&h)));
+        }
+    });
+    vec![e1, e2, e3]
 }
